@@ -54,7 +54,9 @@ def check_program(ctx, P, src, sem, run, tag):
         elif name == "Timeout":
             ctx.count("timeout")
         else:
-            out.append(("%s: %s raised at %s" % (tag, name, site), {"kind": "exception", "exc": name, "site": site}))
+            out.append(("%s: %s raised at %s" % (tag, name, site),
+                        {"kind": "exception", "exc": name, "site": site, "spec_negcycle": sem["negcycle"],
+                         "f1_shape": spine.f1_condition(P)}))
         return out
     if sem["z"] == 0:
         out.append(("%s: answered %s although P(evidence) = 0" % (tag, val), {"kind": "missing-inconsistent", "tag": tag}))
@@ -97,6 +99,18 @@ def real_default(src, timeout=30):
                 site = "%s:%s:%s" % (os.path.basename(fr_.filename), fr_.name, (fr_.line or "").strip())
                 break
         return ("error", ("run", type(e).__name__, site))
+
+
+def run_both(src):
+    """Worker: default pipeline and staged pipeline with evidence propagation. Returns picklable data only."""
+    runs = [("default", real_default(src))]
+    st = spine.run_pipeline(src, propagate_evidence=True, keep_nnf=False, timeout=30)
+    if st.error:
+        runs.append(("staged+propagate", ("error", st.error)))
+    else:
+        runs.append(("staged+propagate", ("ok", {str(k): v for k, v in st.results.items()})))
+    nontrivial = hasattr(st, "lf") and any(type(n).__name__ != "atom" for n in st.lf._nodes) and st.lf.atomcount > 0
+    return runs, nontrivial
 
 
 def shrink_program(P, still_fails):
@@ -169,7 +183,9 @@ def run(ctx):
         qis.append(qinst)
     outs = drv.run(lines)
     nfail = 0
-    for P, out, qinst in zip(progs, outs, qis):
+    from lib import pmap
+    work = pmap(run_both, [spine.to_src(P) for P in progs])
+    for P, out, qinst, (runs, nontrivial) in zip(progs, outs, qis, work):
         src = spine.to_src(P)
         sem = spine.parse_sem(out, qinst)
         if sem is None:
@@ -178,13 +194,6 @@ def run(ctx):
         if sem["undef"] > 0:
             ctx.count("outside-fragment(non-two-valued)")
             continue
-        runs = [("default", real_default(src))]
-        st = spine.run_pipeline(src, propagate_evidence=True, keep_nnf=False, timeout=30)
-        if st.error:
-            runs.append(("staged+propagate", ("error", st.error)))
-        else:
-            runs.append(("staged+propagate", ("ok", {str(k): v for k, v in st.results.items()})))
-        nontrivial = hasattr(st, "lf") and any(type(n).__name__ != "atom" for n in st.lf._nodes) and st.lf.atomcount > 0
         ctx.case(src, nontrivial=nontrivial)
         ctx.count("worlds<=%d" % (1 << max(0, (sem["nworlds"] - 1)).bit_length()))
         if P["evidence"]:
